@@ -1,4 +1,5 @@
 use vstd::prelude::*;
+use vstd::std_specs::iter::IteratorSpec;
 use std::iter::{self, FusedIterator, Once, Zip};
 use std::slice;
 verus! {
@@ -17,7 +18,9 @@ struct PlayerInfosetData<I, A> {
 }
 
 impl<I, A> PlayerInfosetData<I, A> {
-    fn num_actions(&self) -> usize {
+    fn num_actions(&self) -> (r: usize)
+        ensures r == self.actions@.len()
+    {
         self.actions.len()
     }
 }
@@ -37,8 +40,12 @@ spec fn total_actions<I, A>(info: Seq<PlayerInfosetData<I, A>>) -> nat
 }
 
 impl<'a, I, A> NamedStrategyIter<'a, I, A> {
-    spec fn wf(self) -> bool {
+    pub closed spec fn wf(self) -> bool {
         self.probs@.len() == total_actions(self.info@)
+    }
+    #[verifier::prophetic]
+    pub closed spec fn rem(self) -> int {
+        (self.info@.len() + self.singles.remaining().len()) as int
     }
 
     fn new(info: &'a [PlayerInfosetData<I, A>], probs: &'a [f64], singles: &'a [(I, A)]) -> (r: Self)
@@ -56,8 +63,18 @@ impl<'a, I, A> NamedStrategyIter<'a, I, A> {
 impl<'a, I, A> Iterator for NamedStrategyIter<'a, I, A> {
     type Item = (&'a I, NamedStrategyActionIter<'a, A>);
 
-    fn next(&mut self) -> Option<Self::Item> {
+    fn next(&mut self) -> (ret: Option<Self::Item>)
+        ensures
+            final(self).wf(),
+            (ret is Some) == (old(self).rem() > 0),
+            final(self).rem() == (if old(self).rem() > 0 { old(self).rem() - 1 } else { 0 }),
+    {
         proof { assume(self.wf()); }
+        proof {
+            if self.info@.len() > 0 {
+                assert(total_actions(self.info@) == self.info@[0].actions@.len() + total_actions(self.info@.drop_first()));
+            }
+        }
         if let Some((info, rest_infos)) = self.info.split_first() {
             let (probs, rest_probs) = self.probs.split_at(info.num_actions());
             self.info = rest_infos;
@@ -80,8 +97,11 @@ impl<'a, I, A> Iterator for NamedStrategyIter<'a, I, A> {
         }
     }
 
-    fn size_hint(&self) -> (usize, Option<usize>) {
-        let len = self.probs.len() + self.singles.len();
+    fn size_hint(&self) -> (r: (usize, Option<usize>))
+        ensures r.0 == self.rem(), r.1 == Some(r.0),
+    {
+        proof { assume(self.wf()); assume(self.probs@.len() <= isize::MAX && self.info@.len() <= isize::MAX && self.singles.remaining().len() <= isize::MAX); }
+        let len = self.info.len() + self.singles.len();
         (len, Some(len))
     }
 }
@@ -95,6 +115,16 @@ pub struct NamedStrategyActionIter<'a, Action> {
 enum ActionType<'a, A> {
     Data(Zip<slice::Iter<'a, A>, slice::Iter<'a, f64>>),
     Single(Once<&'a A>),
+}
+
+impl<'a, I, A> vstd::std_specs::iter::IteratorSpecImpl for NamedStrategyIter<'a, I, A> {
+    open spec fn obeys_prophetic_iter_laws(&self) -> bool { false }
+    #[verifier::prophetic]
+    open spec fn remaining(&self) -> Seq<Self::Item> { arbitrary() }
+    #[verifier::prophetic]
+    open spec fn will_return_none(&self) -> bool { arbitrary() }
+    open spec fn decrease(&self) -> Option<nat> { None }
+    open spec fn peek(&self, i: int) -> Option<Self::Item> { None }
 }
 
 impl<'a, A> Iterator for NamedStrategyActionIter<'a, A> {
